@@ -14,6 +14,11 @@ package clone
 // equals the next leading overhang, each fragment usable in either
 // orientation, no junction passed twice) and c09Canon (brute-force least
 // string over all rotations of both strands; seqhash is not used).
+//
+// Besides designs whose junction overhangs are unrelated, every clause runs
+// designs in which one junction is the reverse complement of the next (AACG,
+// CGTT): a fragment between them fits in both orientations and each orientation
+// is a ring of its own (c09MakeDesignPairs, class fragment-fits-both-ways).
 
 import (
 	"context"
@@ -203,10 +208,15 @@ type c09Design struct {
 	alts   []int
 	decoys int
 	note   string
+	pairs  int // junction pairs that are reverse complements of each other (c09MakeDesignPairs)
 }
 
 func (d c09Design) key() string {
-	return fmt.Sprintf("junctions=%d alternatives=%v decoys=%d fragments=%d %s", len(d.alts), d.alts, d.decoys, len(d.pool), d.note)
+	k := fmt.Sprintf("junctions=%d alternatives=%v decoys=%d fragments=%d %s", len(d.alts), d.alts, d.decoys, len(d.pool), d.note)
+	if d.pairs > 0 {
+		k += fmt.Sprintf(" reverse-complementary-junction-pairs=%d", d.pairs)
+	}
+	return k
 }
 
 func c09PoolText(pool []c09Frag) string {
@@ -231,10 +241,25 @@ func c09MakeDesign(rng *rand.Rand, k, maxAlt, maxRings, nDecoy int, avoid []stri
 // c09MakeDesignAlts is c09MakeDesign with the number of alternatives per slot
 // given (forced != nil: len(forced) = k, no deliberately repeated alternative).
 func c09MakeDesignAlts(rng *rand.Rand, k, maxAlt, maxRings, nDecoy int, avoid []string, forced []int) c09Design {
+	return c09MakeDesignPairs(rng, k, maxAlt, maxRings, nDecoy, avoid, forced, 0)
+}
+
+// c09MakeDesignPairs is c09MakeDesignAlts in which the first `pairs` pairs of
+// consecutive junctions are reverse complements of each other: junction 1 =
+// rc(junction 0), junction 3 = rc(junction 2). A fragment of slot 0 (and of
+// slot 2) then has overhangs X and rc(X): turned around it has the same two
+// overhangs, so it fits the same place in both orientations and the pool has a
+// ring for each orientation (the same ring when its interior is its own
+// reverse complement). With 2 junctions both slots are of that kind.
+func c09MakeDesignPairs(rng *rand.Rand, k, maxAlt, maxRings, nDecoy int, avoid []string, forced []int, pairs int) c09Design {
 	ov := c09Overhangs(rng, k+2*nDecoy+2)
-	junction := ov[:k]
+	junction := append([]string{}, ov[:k]...)
 	dead := ov[k:]
 	var d c09Design
+	for p := 0; p < pairs && 2*p+1 < k; p++ {
+		junction[2*p+1] = c09RC(junction[2*p])
+		d.pairs++
+	}
 	rings := 1
 	seqLen := func() int {
 		switch rng.Intn(8) {
@@ -389,6 +414,49 @@ func c09Compare(parts []Part, want map[string]bool, fail func(class, detail stri
 	if len(dup) > 0 {
 		fail("construct-duplicated", head+"same molecule returned more than once: "+strings.Join(dup, ", "))
 	}
+}
+
+// c09BothWaysDesign draws a design with reverse-complementary junction pairs
+// (k junctions, 1..2 alternatives per slot, 0..1 decoys) in which the two
+// orientations of a fragment that fits both ways give different molecules (at
+// least two rings). inProcess: no supplied fragment may see a cycle that avoids
+// its own leading overhang (always so with 2 junctions; with 3 junctions only
+// for some orientations of the other fragments; never with 4 junctions and one
+// pair); !inProcess: some fragment must (the pools of the termination clause).
+func c09BothWaysDesign(rng *rand.Rand, k, pairs int, avoid []string, inProcess bool) (c09Design, map[string]bool, bool) {
+	for try := 0; try < 400; try++ {
+		d := c09MakeDesignPairs(rng, k, 2, 16, rng.Intn(2), avoid, nil, pairs)
+		if c09SeedFreeCycle(d.pool) == inProcess {
+			continue
+		}
+		want := c09Rings(d.pool)
+		if len(want) < 2 {
+			continue
+		}
+		return d, want, true
+	}
+	return c09Design{}, nil, false
+}
+
+// the (junctions, reverse-complementary pairs) of the both-ways designs that can be run in process
+// (4 junctions in two such pairs are left out: a fragment of slot 1 turned
+// around then also fits slot 3, the code returns rings that take the same
+// fragment twice, once in each orientation, and whether such a ring counts is
+// not settled by the property; the enumerator takes every fragment once)
+var c09BothWaysInProcess = [][2]int{{2, 1}, {3, 1}}
+
+const c09BothWaysClass = "fragment-fits-both-ways"
+
+// c09BothClass: in a design with a fragment that fits both ways a missing ring
+// is a shape of its own.
+func c09BothClass(class string, d c09Design) string {
+	if d.pairs == 0 {
+		return class
+	}
+	if class == "ring-missing" {
+		return c09BothWaysClass
+	}
+	return class + "-with-" + c09BothWaysClass
 }
 
 // c09LargeClass: a ring missing from a pool with more than 128 rings is a shape of its own.
@@ -679,6 +747,14 @@ func TestVerifC09(t *testing.T) {
 	if thorough {
 		nLargeOrder = 3
 	}
+	// designs with a fragment that fits both ways (reverse-complementary
+	// junctions) come from a stream of their own as well
+	brng := rand.New(rand.NewSource(verifSeed() + 1909))
+	nBothLig, nBothGG, nBothOrder, nBothTerm := 12, 6, 4, 3
+	if thorough {
+		nBothLig, nBothGG, nBothOrder, nBothTerm = 80, 30, 24, 12
+	}
+	bothDom := "designs with a fragment that fits both ways: junction 1 is the reverse complement of junction 0 (e.g. AACG and CGTT), so that a fragment of slot 0 turned around has the same two overhangs and the pool has one ring with it in either orientation; 2 junctions (both slots of that kind) or 3 junctions (in the orientations in which no supplied fragment sees a cycle that avoids its own leading overhang; the others are pools (e) of the termination clause), 1..2 alternatives per slot, 0..1 decoys, random orientation and order, at least two distinct rings by the enumerator (class " + c09BothWaysClass + " when one is missing)"
 	hung := false
 	// guarded in-process call: these pools have no cycle that excludes a seed,
 	// so the call is expected to return at once; a call that does not is
@@ -694,20 +770,27 @@ func TestVerifC09(t *testing.T) {
 		return true
 	}
 
-	vTerm := newVerifRun("C09", c09ClauseTerm, fmt.Sprintf("%d pools (sampled), each run once in a child process (address space limited to 2 GiB, killed 5 s after start) at GOMAXPROCS 1, 2 or 16: pools in which the overhangs reachable from the trailing end of some supplied fragment close a cycle that avoids that fragment's leading overhang: (a) the literal pool d(GGAG..TACT) x(TACT..AATG) y(AATG..TACT); (b) a designed assembly (2..4 junctions, 1..2 alternatives) plus a dead-end decoy whose live end trails as supplied; (c) the same plus a fragment that bridges two non-adjacent junctions; (d) the same plus a two-fragment side ring hanging on one junction; plus, as controls, 3 designed pools without such a cycle; the call must return; when it does, (a)-(c) are also compared with the ring enumerator; non-trivial = the pool has such a cycle", nTerm+3))
+	vTerm := newVerifRun("C09", c09ClauseTerm, fmt.Sprintf("%d pools (sampled), each run once in a child process (address space limited to 2 GiB, killed 5 s after start) at GOMAXPROCS 1, 2 or 16: pools in which the overhangs reachable from the trailing end of some supplied fragment close a cycle that avoids that fragment's leading overhang: (a) the literal pool d(GGAG..TACT) x(TACT..AATG) y(AATG..TACT); (b) a designed assembly (2..4 junctions, 1..2 alternatives) plus a dead-end decoy whose live end trails as supplied; (c) the same plus a fragment that bridges two non-adjacent junctions; (d) the same plus a two-fragment side ring hanging on one junction; (e) %d designed assemblies with a fragment that fits both ways (junction 1 the reverse complement of junction 0, e.g. AACG and CGTT; 3 junctions, or 4 junctions with one such pair; 1..2 alternatives, 0..1 decoys, at least two distinct rings) in the orientations in which some supplied fragment sees such a cycle; plus, as controls, 3 designed pools without such a cycle; the call must return; when it does, (a)-(c) and (e) are also compared with the ring enumerator; non-trivial = the pool has such a cycle", nTerm+nBothTerm+3, nBothTerm))
 	vTerm.Sampled()
 
 	// ---- CircularLigate on fragments ----
 	var vLig *verifRun
 	{
-		v := newVerifRun("C09", c09ClauseLigate, fmt.Sprintf("sampled, %d designed assemblies given directly as fragments: 1..6 junctions with distinct non-palindromic 4-base overhangs (none the reverse complement of another), 1..3 alternative fragments per slot (interiors of 0..31 bases, sometimes the same molecule twice), 0..3 decoys (both ends dead / only the leading end live / only the trailing end live), every fragment supplied in a random orientation, pool shuffled; these have at most %d rings with 5..6 junctions and at most 81 with fewer; plus %d large combinatorial libraries of the same kind with more than 128 distinct rings each (alternatives per slot %v, 0..1 decoys, no deliberately repeated molecule; 128 < rings <= 729); pools in which some supplied fragment sees a cycle that avoids its own leading overhang are left to the termination clause (this removes every pool with a decoy whose live end trails as supplied); each pool run %d times at each of GOMAXPROCS 1, 2, 16; the set of canonical forms (own brute-force least rotation over both strands) of the returned constructs must equal that of the independent ring enumerator, without repeats, every construct marked circular (class ring-missing-in-large-library when a ring of a pool with more than 128 rings is missing); non-trivial = at least 2 fragments in some ring or more than one ring; in addition the pools (a)-(c) and the controls of the termination clause, whenever their child process returned, are compared in the same way (classes then end in -in-cyclic-pool)", nLigate, map[bool]int{false: 64, true: 729}[thorough], len(largeLig), largeLig, reps))
+		v := newVerifRun("C09", c09ClauseLigate, fmt.Sprintf("sampled, %d designed assemblies given directly as fragments: 1..6 junctions with distinct non-palindromic 4-base overhangs (none the reverse complement of another), 1..3 alternative fragments per slot (interiors of 0..31 bases, sometimes the same molecule twice), 0..3 decoys (both ends dead / only the leading end live / only the trailing end live), every fragment supplied in a random orientation, pool shuffled; these have at most %d rings with 5..6 junctions and at most 81 with fewer; plus %d large combinatorial libraries of the same kind with more than 128 distinct rings each (alternatives per slot %v, 0..1 decoys, no deliberately repeated molecule; 128 < rings <= 729); pools in which some supplied fragment sees a cycle that avoids its own leading overhang are left to the termination clause (this removes every pool with a decoy whose live end trails as supplied); each pool run %d times at each of GOMAXPROCS 1, 2, 16; the set of canonical forms (own brute-force least rotation over both strands) of the returned constructs must equal that of the independent ring enumerator, without repeats, every construct marked circular (class ring-missing-in-large-library when a ring of a pool with more than 128 rings is missing); non-trivial = at least 2 fragments in some ring or more than one ring; in addition the pools (a)-(c), (e) and the controls of the termination clause, whenever their child process returned, are compared in the same way (classes then end in -in-cyclic-pool); plus %d %s", nLigate, map[bool]int{false: 64, true: 729}[thorough], len(largeLig), largeLig, reps, nBothLig, bothDom))
 		v.Sampled()
 		vLig = v
-		for i := 0; i < nLigate+len(largeLig) && !hung; i++ {
+		for i := 0; i < nLigate+len(largeLig)+nBothLig && !hung; i++ {
 			var d c09Design
 			var want map[string]bool
 			var k int
-			if i < nLigate {
+			if i >= nLigate+len(largeLig) {
+				kp := c09BothWaysInProcess[(i-nLigate-len(largeLig))%len(c09BothWaysInProcess)]
+				var ok bool
+				k = kp[0]
+				if d, want, ok = c09BothWaysDesign(brng, kp[0], kp[1], nil, true); !ok {
+					t.Fatalf("harness: no design with %d junctions and %d reverse-complementary pair(s)", kp[0], kp[1])
+				}
+			} else if i < nLigate {
 				k = 1 + rng.Intn(6)
 				maxRings := 729
 				if !thorough && k >= 5 {
@@ -745,7 +828,7 @@ func TestVerifC09(t *testing.T) {
 						v.Fail("panic", input, fmt.Sprint("panic: ", perr))
 						continue
 					}
-					c09Compare(parts, want, func(class, detail string) { v.Fail(c09LargeClass(class, want), input, detail) })
+					c09Compare(parts, want, func(class, detail string) { v.Fail(c09BothClass(c09LargeClass(class, want), d), input, detail) })
 				}
 			}
 		}
@@ -753,15 +836,25 @@ func TestVerifC09(t *testing.T) {
 
 	// ---- GoldenGate on carrier parts ----
 	{
-		v := newVerifRun("C09", c09ClauseGG, fmt.Sprintf("sampled, %d designed assemblies (1..5 junctions, 1..3 alternatives, at most %d rings, 0..2 decoys, same exclusion as above) plus %d large combinatorial libraries with more than 128 distinct rings each (5..6 junctions, alternatives per slot %v, 0..1 decoys; class ring-missing-in-large-library) whose fragments are each wrapped in BsaI, BbsI or BtgZI sites and carried, one or two per part, on circular parts (stored from a random origin that does not fall inside a site, its skip or its overhang, so that C10's origin defect is not in play) and linear parts, cassettes in either orientation, a quarter of the parts in lower case, plus parts without any site or with a single site; parts shuffled; each run %d times at GOMAXPROCS 1, 2, 16; result compared as above with the rings of the designed fragments; non-trivial as above", nGG, map[bool]int{false: 27, true: 81}[thorough], len(largeGG), largeGG, (reps+1)/2))
+		v := newVerifRun("C09", c09ClauseGG, fmt.Sprintf("sampled, %d designed assemblies (1..5 junctions, 1..3 alternatives, at most %d rings, 0..2 decoys, same exclusion as above) plus %d large combinatorial libraries with more than 128 distinct rings each (5..6 junctions, alternatives per slot %v, 0..1 decoys; class ring-missing-in-large-library) whose fragments are each wrapped in BsaI, BbsI or BtgZI sites and carried, one or two per part, on circular parts (stored from a random origin that does not fall inside a site, its skip or its overhang, so that C10's origin defect is not in play) and linear parts, cassettes in either orientation, a quarter of the parts in lower case, plus parts without any site or with a single site; parts shuffled; each run %d times at GOMAXPROCS 1, 2, 16; result compared as above with the rings of the designed fragments; non-trivial as above; plus, wrapped and carried in the same way, %d %s", nGG, map[bool]int{false: 27, true: 81}[thorough], len(largeGG), largeGG, (reps+1)/2, nBothGG, bothDom))
 		v.Sampled()
 		largeRetry := 0
-		for i := 0; i < nGG+len(largeGG) && !hung; i++ {
+		for i := 0; i < nGG+len(largeGG)+nBothGG && !hung; i++ {
 			e := c09Enzymes[i%3]
 			rng := rng
 			var d c09Design
 			var k int
-			if i < nGG {
+			flipTries := 10
+			if i >= nGG+len(largeGG) {
+				rng = brng
+				kp := c09BothWaysInProcess[(i-nGG-len(largeGG))%len(c09BothWaysInProcess)]
+				var ok bool
+				k = kp[0]
+				if d, _, ok = c09BothWaysDesign(brng, kp[0], kp[1], []string{e.site, c09RC(e.site)}, true); !ok {
+					t.Fatalf("harness: no design with %d junctions and %d reverse-complementary pair(s)", kp[0], kp[1])
+				}
+				flipTries = 200 // with 3 junctions only some orientations of the cut fragments are free of such a cycle
+			} else if i < nGG {
 				k = 1 + rng.Intn(5)
 				maxRings := 81
 				if !thorough {
@@ -782,7 +875,7 @@ func TestVerifC09(t *testing.T) {
 			flips := make([]bool, len(d.pool))
 			asCut := make([]c09Frag, len(d.pool))
 			safe := false
-			for try := 0; try < 10 && !safe; try++ {
+			for try := 0; try < flipTries && !safe; try++ {
 				for j, f := range d.pool {
 					flips[j] = rng.Intn(2) == 0
 					asCut[j] = f
@@ -793,7 +886,7 @@ func TestVerifC09(t *testing.T) {
 				safe = !c09SeedFreeCycle(asCut)
 			}
 			if !safe {
-				if i >= nGG && largeRetry < 20 { // a large library is not given up: draw it again
+				if i >= nGG && i < nGG+len(largeGG) && largeRetry < 20 { // a large library is not given up: draw it again
 					largeRetry++
 					i--
 				}
@@ -816,7 +909,7 @@ func TestVerifC09(t *testing.T) {
 				j += take
 			}
 			if !okBuild {
-				if i >= nGG && largeRetry < 20 {
+				if i >= nGG && i < nGG+len(largeGG) && largeRetry < 20 {
 					largeRetry++
 					i--
 				}
@@ -861,7 +954,7 @@ func TestVerifC09(t *testing.T) {
 						v.Fail("error", input, "error: "+err.Error())
 						continue
 					}
-					c09Compare(got, want, func(class, detail string) { v.Fail(c09LargeClass(class, want), input, detail) })
+					c09Compare(got, want, func(class, detail string) { v.Fail(c09BothClass(c09LargeClass(class, want), d), input, detail) })
 				}
 			}
 		}
@@ -870,12 +963,19 @@ func TestVerifC09(t *testing.T) {
 
 	// ---- order independence ----
 	{
-		v := newVerifRun("C09", c09ClauseOrder, fmt.Sprintf("sampled, %d designed pools as in the CircularLigate clause (2..6 junctions, at most 81 rings) plus %d large combinatorial libraries as in that clause (5 junctions x 3 alternatives, more than 128 distinct rings; class permuted-input-large-library), each ligated in %d random orders of the same fragments (orientations kept) at a random GOMAXPROCS of 1, 2, 16; the sets of canonical forms must all equal that of the first order; non-trivial = at least 3 fragments", nOrder, nLargeOrder, perms))
+		v := newVerifRun("C09", c09ClauseOrder, fmt.Sprintf("sampled, %d designed pools as in the CircularLigate clause (2..6 junctions, at most 81 rings) plus %d large combinatorial libraries as in that clause (5 junctions x 3 alternatives, more than 128 distinct rings; class permuted-input-large-library), each ligated in %d random orders of the same fragments (orientations kept) at a random GOMAXPROCS of 1, 2, 16; the sets of canonical forms must all equal that of the first order; non-trivial = at least 3 fragments; plus, ligated in the same way, %d %s (class permuted-input-with-%s)", nOrder, nLargeOrder, perms, nBothOrder, bothDom, c09BothWaysClass))
 		v.Sampled()
-		for i := 0; i < nOrder+nLargeOrder && !hung; i++ {
+		for i := 0; i < nOrder+nLargeOrder+nBothOrder && !hung; i++ {
 			var d c09Design
 			rng := rng
-			if i < nOrder {
+			if i >= nOrder+nLargeOrder {
+				rng = brng
+				kp := c09BothWaysInProcess[(i-nOrder-nLargeOrder)%len(c09BothWaysInProcess)]
+				var ok bool
+				if d, _, ok = c09BothWaysDesign(brng, kp[0], kp[1], nil, true); !ok {
+					t.Fatalf("harness: no design with %d junctions and %d reverse-complementary pair(s)", kp[0], kp[1])
+				}
+			} else if i < nOrder {
 				d = c09MakeDesign(rng, 2+rng.Intn(5), 3, 81, rng.Intn(4), nil)
 				if c09SeedFreeCycle(d.pool) {
 					continue
@@ -929,7 +1029,9 @@ func TestVerifC09(t *testing.T) {
 				}
 				if !same {
 					class := "permuted-input"
-					if len(ref) > 128 || len(got) > 128 || i >= nOrder {
+					if d.pairs > 0 {
+						class = c09BothClass(class, d)
+					} else if len(ref) > 128 || len(got) > 128 || i >= nOrder {
 						class = "permuted-input-large-library"
 					}
 					v.Fail(class, input, fmt.Sprintf("%d distinct constructs for the first order, %d for this one", len(ref), len(got)))
@@ -1007,6 +1109,14 @@ func TestVerifC09(t *testing.T) {
 			}
 			cases = append(cases, tc)
 		}
+		for i := 0; i < nBothTerm; i++ {
+			k := 3 + i%2 // 3 junctions, or 4 with one pair: always such a cycle
+			d, _, ok := c09BothWaysDesign(brng, k, 1, nil, false)
+			if !ok {
+				t.Fatalf("harness: no cyclic design with %d junctions and a fragment that fits both ways", k)
+			}
+			cases = append(cases, tcase{"(e) fragment fits both ways", d.pool, true, true})
+		}
 		for i, nc := 0, 0; nc < 3 && i < 300; i++ { // controls: the child-process route itself must let a good pool through
 			d := c09MakeDesign(rng, 2+rng.Intn(3), 2, 8, 1, nil)
 			if c09SeedFreeCycle(d.pool) {
@@ -1053,7 +1163,12 @@ func TestVerifC09(t *testing.T) {
 			case "returned":
 				if tc.exact {
 					vEx.Case(input, true)
-					c09Compare(r.parts, c09Rings(tc.pool), func(class, detail string) { vEx.Fail(class+"-in-cyclic-pool", input, detail) })
+					c09Compare(r.parts, c09Rings(tc.pool), func(class, detail string) {
+						if strings.HasPrefix(tc.kind, "(e)") && class == "ring-missing" {
+							class = c09BothWaysClass
+						}
+						vEx.Fail(class+"-in-cyclic-pool", input, detail)
+					})
 				}
 			default:
 				class := "cycle-excluding-seed"
